@@ -113,3 +113,9 @@ $B --config $W/g6/Breadlog.yaml >$W/out 2>&1
 printf 'fn g(){ info!("second"); }\n' > $W/g6/src/b.rs
 $B --config $W/g6/Breadlog.yaml >$W/out 2>&1
 if grep -q 'ref = 1;' $W/g6/src/a.rs && grep -q 'ref = 1;' $W/g6/src/b.rs; then echo "DEFECT C06 statement nested in another macro's key = value is not recognised after its edit; its id is handed out again: $(cat $W/g6/src/a.rs $W/g6/src/b.rs | tr '\n' ' ')"; else echo "OK C06 nested statement ($(cat $W/g6/src/a.rs $W/g6/src/b.rs | tr '\n' ' '))"; fi
+# --- C05 (recorded finding, not repaired): a failed rename is counted as an insertion
+mk c05r false false
+printf 'fn f(){ info!("a"); }\n' > $W/c05r/src/a.rs
+strace -f -o /dev/null -e trace=rename,renameat,renameat2 -e inject=rename,renameat,renameat2:error=EIO $B --config $W/c05r/Breadlog.yaml >$W/out 2>&1; rc=$?
+n=$(grep -o 'Num. inserted reference(s): [0-9]*' $W/out | grep -o '[0-9]*$'); t=$(grep -c 'ref:' $W/c05r/src/a.rs)
+if [ "$n" != "$t" ]; then echo "KNOWN-FINDING C05 failed rename: the run prints $n inserted reference(s), the tree holds $t (rc=$rc)"; else echo "OK C05r (printed=$n in tree=$t rc=$rc)"; fi
